@@ -789,6 +789,7 @@ func main() {
 		churnChild()
 		return
 	}
+	vf.GuardFatal = true
 	vf.Main("C16", "model_checking", run0)
 }
 
